@@ -544,7 +544,7 @@ func (x *Exec) sliceOp(st *State, i *ssa.Slice) {
 			m = *mx
 		}
 		check(And(Ge(l, Zero), Le(l, h), Le(h, m), Le(m, SlCap(s))))
-		fr.vals[i] = MkSlice(SlBase(s), Add(SlOff(s), l), Sub(h, l), Sub(m, l))
+		fr.vals[i] = app(SSlice, "subsl", s, l, h, m)
 	case *types.Pointer:
 		arr := types.Unalias(u.Elem()).Underlying().(*types.Array)
 		base := x.tval(st, i.X)
@@ -821,12 +821,9 @@ func (x *Exec) makeIface(st *State, v SymVal, t types.Type) Term {
 		delete(st.fresh, r.S)
 		return MkIface(tid, r)
 	case tv.Sort == SInt:
-		if _, isPtr := types.Unalias(t).Underlying().(*types.Basic); isPtr {
-			// integers may be negative: box through an injection
-			b, _ := x.boxFuns(SInt)
-			return MkIface(tid, app(SInt, b, tv))
-		}
 		return MkIface(tid, tv)
+	case tv.Sort == SBool:
+		return MkIface(tid, Ite(tv, IntLit(1), Zero))
 	default:
 		b, _ := x.boxFuns(tv.Sort)
 		return MkIface(tid, app(SInt, b, tv))
@@ -839,11 +836,9 @@ func (x *Exec) unbox(st *State, iv Term, t types.Type) Term {
 	case isStruct(t):
 		return x.loadStruct(st, IVal(iv), t)
 	case sort == SInt:
-		if _, isB := types.Unalias(t).Underlying().(*types.Basic); isB {
-			_, u := x.boxFuns(SInt)
-			return app(SInt, u, IVal(iv))
-		}
 		return IVal(iv)
+	case sort == SBool:
+		return Eq(IVal(iv), IntLit(1))
 	default:
 		_, u := x.boxFuns(sort)
 		return app(sort, u, IVal(iv))
